@@ -52,7 +52,7 @@ func isTimerRecv(st *ssa.SelectState) bool {
 	return call != nil && calleeID(&call.Call) == "time.After"
 }
 
-// chanName gives a stable name for a channel expression: variable or field name.
+// chanName gives a stable name for a channel expression: field or variable name, or the producing call.
 func chanName(v ssa.Value) string {
 	if _, f, ok := fieldOf(v); ok {
 		return f
@@ -60,7 +60,23 @@ func chanName(v ssa.Value) string {
 	if n := varName(v); n != "" {
 		return n
 	}
-	return v.Name()
+	if call, _ := callOf(v); call != nil {
+		if call.Call.IsInvoke() {
+			return call.Call.Method.Name() + "()"
+		}
+		id := calleeID(&call.Call)
+		return id[strings.LastIndex(id, ".")+1:] + "()"
+	}
+	if e, ok := strip(v).(*ssa.Extract); ok {
+		if call, ok := e.Tuple.(*ssa.Call); ok {
+			id := calleeID(&call.Call)
+			return fmt.Sprintf("%s()#%d", id[strings.LastIndex(id, ".")+1:], e.Index)
+		}
+	}
+	if _, ok := strip(v).(*ssa.MakeChan); ok {
+		return "make(chan)"
+	}
+	return "expr"
 }
 
 // bareSendTable: single-shot sends on buffered channels accepted without a Done arm (proof sketch each).
